@@ -206,6 +206,17 @@ def g_codepoints(s):
 # evaluating cases inside Coq
 # ---------------------------------------------------------------------------------------------
 
+MAX_SHARD_BYTES = 1500000
+
+
+def _big_stack():
+    import resource
+    try:
+        resource.setrlimit(resource.RLIMIT_STACK, (resource.RLIM_INFINITY, resource.RLIM_INFINITY))
+    except (ValueError, OSError):
+        pass
+
+
 class CoqCaseError(Exception):
     pass
 
@@ -216,14 +227,23 @@ def run_cases(pid, imports, terms, shard=250, timeout=1800, tag=""):
     CASES.mkdir(exist_ok=True)
     stamp = "%s%s_%d" % (pid, tag, os.getpid())
     files = []
-    for k in range(0, len(terms), shard):
-        name = "cases_%s_%d" % (stamp, k // shard)
+    # a shard holds at most `shard` terms and at most MAX_SHARD_BYTES of text (a multi-megabyte literal overflows coqc's stack)
+    chunks, cur, size = [], [], 0
+    for t in terms:
+        if cur and (len(cur) >= shard or size + len(t) > MAX_SHARD_BYTES):
+            chunks.append(cur)
+            cur, size = [], 0
+        cur.append(t)
+        size += len(t)
+    if cur:
+        chunks.append(cur)
+    for k, chunk in enumerate(chunks):
+        name = "cases_%s_%d" % (stamp, k)
         path = CASES / (name + ".v")
         with open(path, "w") as f:
             f.write("From Coq Require Import Uint63 ZArith QArith Qcanon List.\nImport ListNotations.\n")
             f.write("From Verif Require Import Num Decode %s.\n" % imports)
             f.write("Open Scope Z_scope.\n")
-            chunk = terms[k:k + shard]
             for i, t in enumerate(chunk):
                 f.write("Definition c%d : verdict := Eval vm_compute in (%s).\n" % (i, t))
             f.write("Definition all_cases : list verdict := [%s].\n" % "; ".join("c%d" % i for i in range(len(chunk))))
@@ -251,7 +271,7 @@ def run_cases(pid, imports, terms, shard=250, timeout=1800, tag=""):
         while pending and len(running) < NPROC:
             path, n = pending.pop(0)
             p = subprocess.Popen(["timeout", str(timeout), "coqc"] + COQ_FLAGS + ["-Q", "Cases", "VerifCases", str(path)],
-                                 cwd=COQ, stdout=subprocess.PIPE, stderr=subprocess.PIPE, text=True)
+                                 cwd=COQ, stdout=subprocess.PIPE, stderr=subprocess.PIPE, text=True, preexec_fn=_big_stack)
             running.append((p, path, n))
         p, path, n = running.pop(0)
         res_by_file[path] = finish(p, path, n)
